@@ -28,6 +28,10 @@ use std::task::{Context, Poll, RawWaker, RawWakerVTable, Waker};
 /// real blocking semantics.
 pub struct LoomRaw {
     inner: OnceLock<Mutex<()>>,
+    /// loom does not branch at a mutex release; an atomic RMW right before the
+    /// release gives the scheduler the chance to run other threads WHILE the
+    /// lock is held (they block in lock(), but a try_lock() observes "held")
+    tick: OnceLock<loom::sync::atomic::AtomicUsize>,
     guard: std::cell::UnsafeCell<Option<MutexGuard<'static, ()>>>,
 }
 impl LoomRaw {
@@ -37,13 +41,19 @@ impl LoomRaw {
 }
 unsafe impl RawMutex for LoomRaw {
     #[allow(clippy::declare_interior_mutable_const)]
-    const INIT: LoomRaw = LoomRaw { inner: OnceLock::new(), guard: std::cell::UnsafeCell::new(None) };
+    const INIT: LoomRaw = LoomRaw { inner: OnceLock::new(), tick: OnceLock::new(), guard: std::cell::UnsafeCell::new(None) };
     type GuardMarker = GuardSend;
     fn lock(&self) {
         let g = self.get().lock().unwrap();
         unsafe { *self.guard.get() = Some(std::mem::transmute::<MutexGuard<'_, ()>, MutexGuard<'static, ()>>(g)) };
     }
     fn try_lock(&self) -> bool {
+        // same object as the holder's pre-release RMW: makes "try_lock while
+        // another thread is inside the critical section" a dependent pair
+        // that DPOR has to explore in both orders
+        if preempt_in_critical_section() {
+            self.tick.get_or_init(|| loom::sync::atomic::AtomicUsize::new(0)).fetch_add(1, Ordering::Relaxed);
+        }
         match self.get().try_lock() {
             Ok(g) => {
                 unsafe { *self.guard.get() = Some(std::mem::transmute::<MutexGuard<'_, ()>, MutexGuard<'static, ()>>(g)) };
@@ -53,11 +63,19 @@ unsafe impl RawMutex for LoomRaw {
         }
     }
     unsafe fn unlock(&self) {
+        if preempt_in_critical_section() {
+            self.tick.get_or_init(|| loom::sync::atomic::AtomicUsize::new(0)).fetch_add(1, Ordering::Relaxed);
+        }
         drop((*self.guard.get()).take());
     }
 }
 unsafe impl Sync for LoomRaw {}
 unsafe impl Send for LoomRaw {}
+
+static PREEMPT_IN_CS: std::sync::atomic::AtomicBool = std::sync::atomic::AtomicBool::new(true);
+fn preempt_in_critical_section() -> bool {
+    PREEMPT_IN_CS.load(Ordering::Relaxed)
+}
 
 fn noop_waker() -> Waker {
     fn c(_: *const ()) -> RawWaker {
@@ -261,6 +279,29 @@ fn sem_thief() {
     }
     h1.join().unwrap();
     h2.join().unwrap();
+    assert_eq!(2, s.permits(), "C05: permits not conserved");
+}
+
+/// nobody waits: permit conservation under concurrent try_acquire / releaser drop
+fn sem_try_conserve() {
+    let s = Arc::new(GenericSemaphore::<LoomRaw>::new(false, 2));
+    let _ = s.permits();
+    let hs: Vec<_> = (0..2)
+        .map(|_| {
+            let s = s.clone();
+            loom::thread::spawn(move || {
+                if let Some(r) = s.try_acquire(1) {
+                    drop(r);
+                }
+            })
+        })
+        .collect();
+    if let Some(r) = s.try_acquire(2) {
+        drop(r);
+    }
+    for h in hs {
+        h.join().unwrap();
+    }
     assert_eq!(2, s.permits(), "C05: permits not conserved");
 }
 
@@ -511,6 +552,7 @@ const SCENARIOS: &[(&str, &str, Scenario)] = &[
     ("sem_timeout_unfair", "C01,C05,C06", sem_timeout_unfair),
     ("sem_thief", "C05,C06", sem_thief),
     ("sem_shared_mixed", "C01,C05,C06", sem_shared_mixed),
+    ("sem_try_conserve", "C05", sem_try_conserve),
     ("event_set_reset_set", "C01,C14", event_set_reset_set),
     ("mpmc_2p1c_cap0", "C01,C08,C09,C10", mpmc_2p1c_cap0),
     ("mpmc_2p1c_cap1", "C08,C09,C10", mpmc_2p1c_cap1),
@@ -539,6 +581,9 @@ fn main() {
                 std::process::exit(2)
             });
             let pb = args.iter().position(|a| a == "--pb").and_then(|i| args.get(i + 1)).map(|s| s.as_str()).unwrap_or("2");
+            if args.iter().any(|a| a == "--no-preempt-in-cs") {
+                PREEMPT_IN_CS.store(false, Ordering::Relaxed);
+            }
             let mut b = loom::model::Builder::new();
             b.preemption_bound = if pb == "none" { None } else { Some(pb.parse().expect("preemption bound")) };
             b.max_branches = 20_000;
